@@ -39,7 +39,8 @@ VarOk(r, l) ==
 BadLook(r) == {i \in 1..Len(r.look) : ~(VarUnixOk(r, r.look[i]) /\ (r.look[i].var.k = "skipped" \/ VarOk(r, r.look[i])))}
 
 \* ---- aux values: what /proc/<pid>/auxv (and the memory it points to) says -----------------
-AuxOk(r) == /\ r.aux.uid = r.kaux.uid
+AuxOk(r) == r.has_aux =>     \* (a probe built without tiny-std's aux feature has no getters)
+            /\ r.aux.uid = r.kaux.uid
             /\ r.aux.gid = r.kaux.gid
             /\ r.aux.random = r.kaux.random /\ Len(r.kaux.random) = 16
             /\ r.aux.execfn = r.kaux.execfn
@@ -61,9 +62,9 @@ StackOk(r) ==
             fnp == S!Aux(r.st, 31)
         IN /\ S!Args(r.st, r.heap) = r.args_os
            /\ \A i \in 1..Len(r.look) : r.look[i].varu \in {AsRes(x) : x \in S!LookupAdmissible(envb, r.look[i].key)}
-           /\ S!Aux(r.st, 11) = r.aux.uid /\ S!Aux(r.st, 13) = r.aux.gid
-           /\ rnd # 0 /\ SubSeq(r.heap, rnd, rnd + 15) = r.aux.random
-           /\ fnp # 0 /\ S!CStr(r.heap, fnp) = r.aux.execfn
+           /\ r.has_aux => /\ S!Aux(r.st, 11) = r.aux.uid /\ S!Aux(r.st, 13) = r.aux.gid
+                           /\ rnd # 0 /\ SubSeq(r.heap, rnd, rnd + 15) = r.aux.random
+                           /\ fnp # 0 /\ S!CStr(r.heap, fnp) = r.aux.execfn
 \* /proc/<pid>/environ, cmdline and auxv describe the same picture (harness consistency)
 StackHarnessOk(r) == HasStack(r) => /\ S!EnvBlock(r.st, r.heap) = r.kenv
                                     /\ S!Args(r.st, r.heap) = r.kargv
